@@ -78,6 +78,21 @@ func genC05(repo string) (string, error) {
 		return "", err
 	}
 	o.strList("cmps_getOrCreateLocalTSOSuffix", am.Compares(fd), "comparison of the suffix creation txn")
+	// joins, moves, suffix width (model/C05_Join.v)
+	jopt := goast.SkelOpt{
+		Calls: set("GetClusterDCLocations", "getAllocatorGroup", "GetAllocatorLeader", "GetAllocator", "SyncMaxTS", "getCurrentTSO", "CompareTimestamp", "delete",
+			"Initialize", "WriteTSO", "compareAndSetMaxSuffix", "EnableAllocatorLeader", "CampaignAllocatorLeader",
+			"GetClusterDCLocationsFromEtcd", "IsLeader", "getOrCreateLocalTSOSuffix", "getMaxLocalTSOSuffix"),
+		Assigns: set("maxTSO", "maxSuffix", "Suffix"), Conds: true, Branches: true}
+	for _, fn := range []string{"GetMaxLocalTSO", "campaignAllocatorLeader", "ClusterDCLocationChecker", "compareAndSetMaxSuffix", "GetSuffixBits"} {
+		if err := o.skeleton(am, "AllocatorManager", fn, "skel_am_"+fn, jopt); err != nil {
+			return "", err
+		}
+	}
+	if err := o.skeleton(gs, "Server", "GetDCLocationInfo", "skel_handler_GetDCLocationInfo", goast.SkelOpt{
+		Calls: set("IsLeader", "GetDCLocationInfo", "ClusterDCLocationChecker", "GetMaxLocalTSO"), Assigns: set("MaxTs", "Suffix"), Conds: true, Branches: true}); err != nil {
+		return "", err
+	}
 	cl, err := goast.Load(repo, "client/client.go")
 	if err != nil {
 		return "", err
